@@ -5,15 +5,19 @@
    qexpy/data/data.py: RepeatedlyMeasuredValue.__init__, use_* selectors).
 
   Generic over `Num`: run with `FB` (Float + rounding bound) by the driver, proved with `ℝ`.
+  Every formula the library computes itself is the term the translator regenerates from the
+  source on each run (`QExPy/Generated/Stats.lean`, section `stats`); what is written out here
+  (`devs`, `ssq`, `var1`, `weights`) is the textbook vocabulary of the theorems.
   Shared by C10 (statistics), C04 (inferred covariance), C17 (aggregates), C14 (repeated values).
 -/
 import QExPy.Num
+import QExPy.Generated.Stats
 
 namespace QExPy.Stats
 variable {α : Type} [Num α]
 
 /-- `np.mean(values)` -/
-def mean (xs : List α) : α := Num.div (Num.sum xs) (Num.ofNat xs.length)
+def mean (xs : List α) : α := Gen.arrMeanValue xs
 
 /-- deviations from the mean, `x - np.mean(arr)` -/
 def devs (xs : List α) : List α := xs.map fun x => Num.sub x (mean xs)
@@ -25,25 +29,22 @@ def ssq (xs : List α) : α := Num.sum ((devs xs).map Num.sq)
 def var1 (xs : List α) : α := Num.div (ssq xs) (Num.ofNat (xs.length - 1))
 
 /-- `np.std(values, ddof=1)` -/
-def std1 (xs : List α) : α := Num.sqrt (var1 xs)
+def std1 (xs : List α) : α := Gen.arrStd Gen.arrStdDdof xs
 
 /-- `error_on_mean`: `std() / sqrt(size)` -/
-def sem (xs : List α) : α := Num.div (std1 xs) (Num.sqrt (Num.ofNat xs.length))
+def sem (xs : List α) : α := Gen.arrSem xs
 
 /-- `weights = 1 / err**2` -/
 def weights (es : List α) : List α := es.map fun e => Num.div (Num.ofNat 1) (Num.sq e)
 
 /-- `error_weighted_mean`: `sum(weights * values) / sum(weights)` -/
-def wmean (xs es : List α) : α :=
-  Num.div (Num.sum (List.zipWith Num.mul (weights es) xs)) (Num.sum (weights es))
+def wmean (xs es : List α) : α := Gen.arrWmean xs es
 
 /-- `propagated_error`: `1 / sqrt(sum(weights))` -/
-def perr (es : List α) : α := Num.div (Num.ofNat 1) (Num.sqrt (Num.sum (weights es)))
+def perr (es : List α) : α := Gen.arrPerr es
 
 /-- `calculate_covariance`: `1/(n-1) * sum((x - mean x) * (y - mean y))` -/
-def cov1 (xs ys : List α) : α :=
-  Num.mul (Num.div (Num.ofNat 1) (Num.ofNat (xs.length - 1)))
-    (Num.sum (List.zipWith Num.mul (devs xs) (devs ys)))
+def cov1 (xs ys : List α) : α := Gen.calcCov xs ys
 
 /-- normalised form `cov / (std_x * std_y)` -/
 def corr (xs ys : List α) : α := Num.div (cov1 xs ys) (Num.mul (std1 xs) (std1 ys))
@@ -54,10 +55,10 @@ def clip (x lo hi : α) : α :=
   if Num.lt hi m then hi else m               -- min(m, hi)
 
 /-- `ExperimentalValueArray.sum`: (Σ x, sqrt Σ s²) -/
-def sumPair (xs es : List α) : α × α := (Num.sum xs, Num.sqrt (Num.sum (es.map Num.sq)))
+def sumPair (xs es : List α) : α × α := (Gen.arrSumValue xs es, Gen.arrSumError xs es)
 
 /-- `ExperimentalValueArray.mean`: (mean, std/√n) -/
-def meanPair (xs : List α) : α × α := (mean xs, sem xs)
+def meanPair (xs : List α) : α × α := (Gen.arrMeanValue xs, Gen.arrMeanError xs)
 
 /-! ### the use_* selector state machine of a RepeatedlyMeasuredValue -/
 
@@ -79,16 +80,19 @@ def Sel.name : Sel → String
 def Sel.ofName? (s : String) : Option Sel := Sel.all.find? (·.name == s)
 
 /-- constructor: value = mean, uncertainty = error on the mean -/
-def Rep.init (xs es : List α) : Rep α := ⟨xs, es, mean xs, sem xs⟩
+def Rep.init (xs es : List α) : Rep α := ⟨xs, es, Gen.repInitValue xs, Gen.repInitError xs⟩
 
 /-- `any(err == 0 for err in errors)`: the weighted statistics are then `nan` and ignored -/
-def hasZero (es : List α) : Bool := es.any Num.isZero
+def hasZero (es : List α) : Bool := Gen.arrWmeanNan es
+
+/-- write back the (`_value`, `_error`) pair a selector leaves -/
+def Rep.set (r : Rep α) (p : α × α) : Rep α := { r with value := p.1, error := p.2 }
 
 def Rep.step (r : Rep α) : Sel → Rep α
-  | .useStd => { r with error := std1 r.xs }
-  | .useSem => { r with error := sem r.xs }
-  | .useWmean => if hasZero r.es then r else { r with value := wmean r.xs r.es }
-  | .usePerr => if hasZero r.es then r else { r with error := perr r.es }
+  | .useStd => r.set (Gen.useStd r.xs r.es r.value r.error)
+  | .useSem => r.set (Gen.useSem r.xs r.es r.value r.error)
+  | .useWmean => r.set (Gen.useWmean r.xs r.es r.value r.error)
+  | .usePerr => r.set (Gen.usePerr r.xs r.es r.value r.error)
 
 def Rep.run (r : Rep α) (ss : List Sel) : Rep α := ss.foldl Rep.step r
 
